@@ -16,6 +16,40 @@ class Abort(BaseException):
     """Injected caller abort (request timeout / killed worker thread)."""
 
 
+class WorkerPool:
+    """Long-lived pooled caller threads (a server's worker pool): thread-local state — decimal context, anything the
+    library parks in threading.local — survives from one simulated run to the next, as it does in a real service."""
+
+    def __init__(self):
+        self.workers = {}
+
+    def submit(self, slot, fn, *args):
+        w = self.workers.get(slot)
+        if w is None or not w['thread'].is_alive():
+            w = {'todo': None, 'wake': threading.Event(), 'thread': None}
+            w['thread'] = threading.Thread(target=self._loop, args=(w,), name='client-%d' % slot, daemon=True)
+            self.workers[slot] = w
+            w['thread'].start()
+        w['todo'] = (fn, args)
+        w['wake'].set()
+        return w['thread']
+
+    @staticmethod
+    def _loop(w):
+        while True:
+            w['wake'].wait()
+            w['wake'].clear()
+            fn, args = w['todo']
+            w['todo'] = None
+            try:
+                fn(*args)
+            except BaseException:   # noqa  (reported through sched.error by the body itself)
+                pass
+
+
+POOL = WorkerPool()
+
+
 class Client:
     def __init__(self, cid, ops, placement='pooled'):
         self.cid = cid
@@ -246,8 +280,8 @@ class Baton:
                 main_client = c
             else:
                 c.placement = 'pooled' if c.placement == 'main' else c.placement
-                c.thread = threading.Thread(target=self._client_main, args=(c, exec_op), name='client-%d' % c.cid, daemon=True)
-                c.thread.start()
+                c.thread = None
+                POOL.submit(c.cid, self._client_main, c, exec_op)
         first = self.policy.first(self)
         self.first_cid = first.cid
         self.policy.on_resume(self, first)
@@ -256,9 +290,6 @@ class Baton:
             self._client_main(main_client, exec_op)
         if not self.all_done.wait(self.hang_s):
             raise HarnessError(self.error or 'scheduler hang: not all clients finished')
-        for c in self.clients:
-            if c.thread is not None:
-                c.thread.join(10)
         if self.error:
             raise HarnessError(self.error)
 
